@@ -74,7 +74,8 @@ def run_case(case):
     rng = random.Random(case["stim_seed"])
     mon = Mon(trace_len=40)
     aw, dw, gran = case["aw"], case["dw"], case["gran"]
-    b = csr.Builder(addr_width=aw, data_width=dw, granularity=gran)
+    from vmon.simkit import omit
+    b = csr.Builder(**omit(rng, "csr.Builder", addr_width=aw, data_width=dw, granularity=gran))
     # a second, independent builder is filled while the first one is in use (also from inside its open scopes):
     # builders must not influence each other
     b2 = csr.Builder(addr_width=max(aw, 6), data_width=dw, granularity=gran)
